@@ -19,10 +19,10 @@ REQUIRED = ["state_dict_roundtrip", "pickle_roundtrip", "deepcopy_roundtrip", "o
 ASSUMPTIONS = ["pickle/deepcopy of an object are compared with the original at 1e-9 (caches may be recomputed), state_dict round trip at 1e-7"]
 ANCHOR_FILES = ["gpytorch/module.py", "gpytorch/models/", "gpytorch/kernels/", "gpytorch/priors/", "gpytorch/constraints/", "gpytorch/variational/"]
 
-FAMS = ["default", "batch", "ski", "ski_dynamic_grid", "sgpr", "svgp_whitened", "svgp_unwhitened", "svgp_meanfield", "svgp_batch_decoupled", "lmc_multitask", "priors", "rff", "natural", "modellist"]
+FAMS = ["default", "batch", "ski", "ski_dynamic_grid", "sgpr", "svgp_whitened", "svgp_unwhitened", "svgp_meanfield", "svgp_batch_decoupled", "lmc_multitask", "priors", "rff", "natural", "svgp_fixed_inducing", "modellist"]
 SAVE_OPS = ["pred", "pred_fpv", "train_step", "load_sd", "train_eval", "set_data", "pred_nodetach", "prior"]
 VAR_SAVE_OPS = ["pred", "pred_batch", "train_step", "load_sd", "train_eval", "prior"]
-VARF = {"svgp_whitened", "svgp_unwhitened", "svgp_meanfield", "svgp_batch_decoupled", "lmc_multitask", "natural"}
+VARF = {"svgp_fixed_inducing", "svgp_whitened", "svgp_unwhitened", "svgp_meanfield", "svgp_batch_decoupled", "lmc_multitask", "natural"}
 
 
 def cases(tier, seed):
@@ -35,6 +35,24 @@ def cases(tier, seed):
             if fam == "lmc_multitask":
                 ops = [o for o in ops if o != "pred_batch"]
             yield {"family": fam, "seq": [rnd.choice(ops) for _ in range(L)], "mseed": rnd.randrange(1000)}
+
+
+class _FixedZModel(__import__("gpytorch").models.ApproximateGP):
+    """SVGP whose inducing locations are NOT learned (a buffer, not a parameter) - module level so that it pickles"""
+
+    def __init__(self, Z):
+        import gpytorch
+
+        V = gpytorch.variational
+        vs = V.VariationalStrategy(self, Z, V.CholeskyVariationalDistribution(Z.size(-2)), learn_inducing_locations=False)
+        super().__init__(vs)
+        self.mean_module = gpytorch.means.ConstantMean()
+        self.covar_module = gpytorch.kernels.ScaleKernel(gpytorch.kernels.RBFKernel())
+
+    def forward(self, x):
+        import gpytorch
+
+        return gpytorch.distributions.MultivariateNormal(self.mean_module(x), self.covar_module(x))
 
 
 def _extra_families():
@@ -80,7 +98,19 @@ def _extra_families():
                 vd.natural_mat.copy_(-0.5 * Sinv)
             return m
 
-    return {c.name: c for c in (Priors, RFF, Natural)}
+    class FixedZ(H.SVGP):
+        name = "svgp_fixed_inducing"
+        has_alt = True
+
+        def build(self, alt=False):
+            # the receiving model of the state_dict route is constructed with OTHER inducing locations
+            Z = util.randn(util.gen(self.init_seed + 99), 4, H.D) if alt else self.X[:4].clone()
+            m = _FixedZModel(Z)
+            m.likelihood = gpytorch.likelihoods.GaussianLikelihood()
+            return m
+
+    Priors.has_alt = True
+    return {c.name: c for c in (Priors, RFF, Natural, FixedZ)}
 
 
 _ST = {}
@@ -187,7 +217,11 @@ def run_case(case, ctx):
             return
         # ---- state_dict into a fresh model (built with other prior parameters / bounds where the family has them)
         try:
-            fr = fam.build(alt=True) if case["family"] == "priors" else fam.build()
+            fam.alt = True  # other constructor-time inducing points (every family); other prior parameters / bounds where it has them
+            try:
+                fr = fam.build(alt=True) if getattr(fam, "has_alt", False) else fam.build()
+            finally:
+                fam.alt = False
             if fam.exact:
                 fr.set_train_data(m.train_inputs[0], m.train_targets, strict=False)
             sd = copy.deepcopy(m.state_dict())
